@@ -268,11 +268,13 @@ impl Puback {
 impl Encodable for Puback {
     fn encode<W: io::Write>(&self, writer: &mut W) -> io::Result<()> {
         write_u16(writer, self.pid.value())?;
-        if self.reason_code != PubackReasonCode::Success {
-            write_u8(writer, self.reason_code as u8)?;
-            if self.properties != PubackProperties::default() {
-                self.properties.encode(writer)?;
+        if self.properties == PubackProperties::default() {
+            if self.reason_code != PubackReasonCode::Success {
+                write_u8(writer, self.reason_code as u8)?;
             }
+        } else {
+            write_u8(writer, self.reason_code as u8)?;
+            self.properties.encode(writer)?;
         }
         Ok(())
     }
@@ -422,11 +424,13 @@ impl Pubrec {
 impl Encodable for Pubrec {
     fn encode<W: io::Write>(&self, writer: &mut W) -> io::Result<()> {
         write_u16(writer, self.pid.value())?;
-        if self.reason_code != PubrecReasonCode::Success {
-            write_u8(writer, self.reason_code as u8)?;
-            if self.properties != PubrecProperties::default() {
-                self.properties.encode(writer)?;
+        if self.properties == PubrecProperties::default() {
+            if self.reason_code != PubrecReasonCode::Success {
+                write_u8(writer, self.reason_code as u8)?;
             }
+        } else {
+            write_u8(writer, self.reason_code as u8)?;
+            self.properties.encode(writer)?;
         }
         Ok(())
     }
@@ -576,11 +580,13 @@ impl Pubrel {
 impl Encodable for Pubrel {
     fn encode<W: io::Write>(&self, writer: &mut W) -> io::Result<()> {
         write_u16(writer, self.pid.value())?;
-        if self.reason_code != PubrelReasonCode::Success {
-            write_u8(writer, self.reason_code as u8)?;
-            if self.properties != PubrelProperties::default() {
-                self.properties.encode(writer)?;
+        if self.properties == PubrelProperties::default() {
+            if self.reason_code != PubrelReasonCode::Success {
+                write_u8(writer, self.reason_code as u8)?;
             }
+        } else {
+            write_u8(writer, self.reason_code as u8)?;
+            self.properties.encode(writer)?;
         }
         Ok(())
     }
@@ -707,11 +713,13 @@ impl Pubcomp {
 impl Encodable for Pubcomp {
     fn encode<W: io::Write>(&self, writer: &mut W) -> io::Result<()> {
         write_u16(writer, self.pid.value())?;
-        if self.reason_code != PubcompReasonCode::Success {
-            write_u8(writer, self.reason_code as u8)?;
-            if self.properties != PubcompProperties::default() {
-                self.properties.encode(writer)?;
+        if self.properties == PubcompProperties::default() {
+            if self.reason_code != PubcompReasonCode::Success {
+                write_u8(writer, self.reason_code as u8)?;
             }
+        } else {
+            write_u8(writer, self.reason_code as u8)?;
+            self.properties.encode(writer)?;
         }
         Ok(())
     }
